@@ -373,9 +373,10 @@ func (p *parser) parseStringLiteral() ast.Expression {
 }
 
 func (p *parser) parseCommentLiteral() ast.Expression {
-	for p.curToken.Type != token.E_END {
-		p.nextToken()
-	}
+	// the body of a comment is not code: let the lexer skip it raw, up to
+	// the closing tag or the end of the input
+	p.curToken = p.SkipComment()
+	p.peekToken = p.NextToken()
 
 	return &ast.StringLiteral{TokenAble: ast.TokenAble{Token: p.curToken}, Value: ""}
 }
